@@ -391,10 +391,14 @@ class Engine:
                 'metadata': SDict(fresh(name + '_md_dom', SetVal), fresh(name + '_md_val', vl.MapVal),
                                   fresh(name + '_md_keys', SeqVal)),
             })
+        if ty == 'Iter':
+            return SObj('Iter', {'seq': V(VList(fresh(name + '_seq', SeqVal)))})
         if ty == 'TokenIterator':
+            # the real fields: one token of lookahead, the last token returned, the underlying iterator
             return SObj('TokenIterator', {
-                'rem': V(VList(fresh(name + '_rem', SeqVal))),      # abstract view: remaining tokens
-                '_last': V(fresh(name + '_last', Val)),             # last token returned or None
+                '_next': V(fresh(name + '_next', Val)),
+                '_last': V(fresh(name + '_last', Val)),
+                'iterator': SObj('Iter', {'seq': V(VList(fresh(name + '_iter', SeqVal)))}),
             })
         if ty == 'keyfn':
             return SFunc('keyfn', fn=vl.key_fn)
@@ -712,6 +716,13 @@ class Exec:
             return a
         if z3.is_false(c):
             return b
+        # a condition already decided on this path (literally in the path condition) is resolved
+        nc = vl.simp(z3.Not(c))
+        for p_ in self.pc:
+            if p_.eq(c):
+                return a
+            if p_.eq(nc):
+                return b
         if isinstance(a, V) and isinstance(b, V):
             ka, kb = static_kind(a.t), static_kind(b.t)
             if ka == kb and ka in ('VStr', 'VInt', 'VBool', 'VList', 'VTuple', 'VFloat'):
@@ -1106,11 +1117,11 @@ class Exec:
         owners = [c for c, fs in vl.FIELDS.items() if attr in fs]
         ok = z3.Or(*[get_cls(v) == vl.CLASSES[c] for c in owners])
         self.safe(ok, 'AttributeError', '.%s' % attr, node)
-        idx = vl.FIELDS[owners[0]].index(attr)
-        for c in owners[1:]:
-            if vl.FIELDS[c].index(attr) != idx:
-                raise Unsupported('field layout of %s' % attr)
-        return V(get_fields(v)[idx])
+        # the slot of the field depends on the class
+        t = get_fields(v)[vl.FIELDS[owners[-1]].index(attr)]
+        for c in reversed(owners[:-1]):
+            t = z3.If(get_cls(v) == vl.CLASSES[c], get_fields(v)[vl.FIELDS[c].index(attr)], t)
+        return V(t)
 
     def module_attr(self, base, attr, node):
         name = base.name
@@ -1236,11 +1247,12 @@ class Exec:
             n = len(tgt.elts)
             kind, seq = self.seq_parts(v, node)
             if kind is None or kind == 'str':
+                tok = z3.And(is_obj(v), get_cls(v) == vl.CLASSES['Token'])   # a NamedTuple unpacks like a tuple
                 if self.spec_mode:
-                    seq = z3.If(is_tuple(v), get_items(v), get_elems(v))
+                    seq = z3.If(is_tuple(v), get_items(v), z3.If(tok, get_fields(v), get_elems(v)))
                 else:
-                    self.safe(z3.Or(is_tuple(v), is_list(v)), 'TypeError', 'unpack non-sequence', node)
-                    seq = z3.If(is_tuple(v), get_items(v), get_elems(v))
+                    self.safe(z3.Or(is_tuple(v), is_list(v), tok), 'TypeError', 'unpack non-sequence', node)
+                    seq = z3.If(is_tuple(v), get_items(v), z3.If(tok, get_fields(v), get_elems(v)))
             self.safe(z3.Length(seq) == n, 'ValueError', 'unpack arity %d' % n, node)
             for i, t in enumerate(tgt.elts):
                 self.bind_target(t, V(seq[i]), node)
@@ -1280,7 +1292,10 @@ class Exec:
 
     def st_Raise(self, st):
         if st.exc is None:
-            raise PyRaise('RERAISE', node=st)
+            cur = getattr(self, 'current_exc', None)
+            if cur is None:
+                raise Unsupported('bare raise outside an except block')
+            raise PyRaise(cur, node=st)
         exc = st.exc
         from . import builtins as B
         name, payload = B.exception_value(self, exc)
@@ -1392,7 +1407,12 @@ class Exec:
                 if any(exc_matches(r.exc, n) for n in names):
                     if h.name:
                         self.env[h.name] = SOpaque('exception')
-                    self.run_block(h.body)
+                    saved_exc = getattr(self, 'current_exc', None)
+                    self.current_exc = r.exc
+                    try:
+                        self.run_block(h.body)
+                    finally:
+                        self.current_exc = saved_exc
                     return
             raise
         finally:
@@ -1444,4 +1464,4 @@ BUILTIN_NAMES = {'len', 'isinstance', 'str', 'list', 'set', 'dict', 'tuple', 're
                  'set_of_seq', 'set_add', 'set_union', 'set_where', 'subset', 'dict_has', 'dict_get', 'dict_keys', 'dict_values_str',
                  'mk', 'noop', 'norm_has', 'norm_get', 'reif_has', 'reif_get', 'dereif_has', 'dereif_get',
                  'top_role', 'aln_marker', 'aln_ok', 'str_of', 'json_dumps', 'json_container', 'keyof', 'key_le', 'seq_eq',
-                 'is_atomic', 'last_index', 'fld', 'is_sorted_by', 'perm_of', 'multiset_eq'}
+                 'is_atomic', 'last_index', 'fld', 'nfields', 'is_sorted_by', 'perm_of', 'multiset_eq'}
